@@ -140,15 +140,18 @@ func (f *vFaultPlan) at(kind string, n int) zzmodel.Fault {
 	if f.n >= f.max {
 		return zzmodel.FaultNone
 	}
-	f.n++
+	// every delete of the pass is a candidate position; at most f.max of them fail
 	switch zzverif.Choose("delfault", 4) {
 	case 1:
+		f.n++
 		zzverif.Cover("delete-error")
 		return zzmodel.FaultErr
 	case 2:
+		f.n++
 		zzverif.Cover("delete-unknown-applied")
 		return zzmodel.FaultUnknownApplied
 	case 3:
+		f.n++
 		f.crashed = true
 		zzverif.Cover("compactor-dies")
 		return zzmodel.FaultErr
